@@ -568,6 +568,7 @@ func (se *SessionExecutor) recycleBackendConn(pc backend.PooledConnect) {
 
 	if pc.IsClosed() {
 		se.recycleTx()
+		se.forgetKsConn(pc)
 		pc.Recycle()
 		return
 	}
@@ -589,12 +590,23 @@ func (se *SessionExecutor) recycleBackendConn(pc backend.PooledConnect) {
 	pc.Recycle()
 }
 
+// forgetKsConn removes a connection that is being returned to its pool from the
+// keep-session map, so that it is neither used nor recycled a second time
+func (se *SessionExecutor) forgetKsConn(pc backend.PooledConnect) {
+	for sliceName, ksConn := range se.ksConns {
+		if ksConn == pc {
+			delete(se.ksConns, sliceName)
+		}
+	}
+}
+
 func (se *SessionExecutor) recycleContinueConn(pc backend.PooledConnect) {
 	if pc == nil {
 		return
 	}
 	if pc.IsClosed() {
 		se.recycleTx()
+		se.forgetKsConn(pc)
 		pc.Recycle()
 		return
 	}
